@@ -630,14 +630,28 @@ func c11Reinit(c *Ctx) {
 		krs, _ := B.Machines[victim].GetBLSKeyrings()
 		return ev, krs[cl.Round] != nil
 	}
+	// the model's verdict (Air/Reinit.v): the round is token 7, ok = the step's handler accepts its payload
+	airLine := func(respOK int) string {
+		return fmt.Sprintf("airreinit 7 4 commits 7 1 deals 7 1 responses 7 %d master 7 1", respOK)
+	}
+	airObs := func(ev string, has bool) string {
+		o := "airreinit refused shares="
+		if ev == string(ctypes.OperationProcessed) {
+			o = "airreinit processed shares="
+		}
+		if has {
+			o += "7"
+		}
+		return o
+	}
 	ev, has := run("control", ops)
-	c.Case("reinit-control", false, "skip reinit-control", "skip reinit-control")
+	c.Case("reinit-control", true, airLine(1), airObs(ev, has))
 	if ev != string(ctypes.OperationProcessed) || !has {
 		harnessFail("the reinitialisation of the consistent log ends with " + ev)
 		return
 	}
 	ev, has = run("other-polynomial", []ctypes.Operation{ops[0], ops[1], bad, ops[3]})
-	c.Case("reinit-other-polynomial", false, "skip reinit-other-polynomial", "skip reinit-other-polynomial")
+	c.Case("reinit-other-polynomial", true, airLine(0), airObs(ev, has))
 	rep["deviation"] = "reinit-other-polynomial"
 	if ev == string(ctypes.OperationProcessed) {
 		c.Fail(Failure{Property: "C11", Kind: "reinit-swallows-refusal", Signature: map[string]interface{}{"kind": "reinit-swallows-refusal", "deviation": "reinit-other-polynomial"},
